@@ -8,10 +8,22 @@ HERE="$(cd "$(dirname "$0")" && pwd)"
 TARGET_DIR="${VERIF_REPLAY_TARGET:-/verif/.cache/replay-target}"
 PROFILE=release
 [ "${1:-}" = "--checked" ] && PROFILE=checked
+REPO="${VERIF_REPO:-/repo}"
+if [ "$REPO" != "/repo" ]; then
+    # frozen / scratch copy of the repository (used for long background runs while /repo is being mutated, never by a registered command):
+    # a copy of this crate with the path dependency redirected, and its own target dir
+    KEY="$(printf %s "$REPO" | md5sum | cut -c1-8)"
+    ALT="/verif/.cache/replay-alt-$KEY"
+    mkdir -p "$ALT"
+    rm -rf "$ALT/src"; cp -r "$HERE/src" "$ALT/src"
+    sed "s#path = \"/repo\"#path = \"$REPO\"#" "$HERE/Cargo.toml" > "$ALT/Cargo.toml"
+    HERE="$ALT"
+    TARGET_DIR="/verif/.cache/replay-target-$KEY"
+fi
 mkdir -p "$TARGET_DIR"
 # Start from /repo's lock so the crate under test is built with its pinned dependency versions;
 # cargo adds the few extra crates (serde_json, ...) from the offline registry cache.
-cp /repo/Cargo.lock "$HERE/Cargo.lock"
+cp "$REPO/Cargo.lock" "$HERE/Cargo.lock"
 cd "$HERE"
 cargo build --profile "$PROFILE" --offline --quiet --target-dir "$TARGET_DIR" >&2
 echo "$TARGET_DIR/$PROFILE/verif-replay"
